@@ -1057,6 +1057,32 @@ static int op_dynconf(int argc, char **argv, FILE *out) {
     return 1;
 }
 
+/* tcpconn <source address> <event>...: a TCP peer connects from that address and follows the script (w:<hex> | e); see h_tcp_serve */
+extern int h_tcp_serve(const char *src, char **script, int nscript);
+static int op_tcpconn(int argc, char **argv, FILE *out) {
+    int used;
+    if (argc < 1 || !world_ready)
+        return 0;
+    {
+        /* whether an association will exist for this source: decides only how the digest is numbered afterwards */
+        struct sockaddr_in sa;
+        memset(&sa, 0, sizeof(sa));
+        sa.sin_family = AF_INET;
+        if (inet_pton(AF_INET, argv[0], &sa.sin_addr) != 1)
+            return 0;
+        used = find_clconf(RAD_TCP, (struct sockaddr *)&sa, NULL, NULL) != NULL;
+    }
+    if (h_tcp_serve(argv[0], argv + 1, argc - 1) < 0)
+        return 0;
+    if (used && nwclients < MAXCL) { /* the association came and went within the op */
+        wclients[nwclients] = NULL;
+        wclconf[nwclients++] = NULL;
+    }
+    fputs("tcpconn", out);
+    put_tail(out);
+    return 1;
+}
+
 /* connstate <type 1 tls | 2 tcp | 3 dtls> <state> <reconnect 0|1>: the REAL connecter of that transport is entered with the server in
    the given state; its last successful connection is "just now", so that it gives up (its wait would exceed the time it
    is allowed) before it touches the network. Prints the server's state afterwards: what a request arriving while the connection is
@@ -1394,6 +1420,7 @@ int h_rsp_op(const char *op, int argc, char **argv, FILE *out) {
     if (!strcmp(op, "dynfind")) return op_dynfind(argc, argv, out);
     if (!strcmp(op, "connstate")) return op_connstate(argc, argv, out);
     if (!strcmp(op, "dynconf")) return op_dynconf(argc, argv, out);
+    if (!strcmp(op, "tcpconn")) return op_tcpconn(argc, argv, out);
     if (!strcmp(op, "idle")) return op_idle(argc, argv, out);
     if (!strcmp(op, "rxeval")) return op_rxeval(argc, argv, out);
     if (!strcmp(op, "reset")) return op_reset(argc, argv, out);
